@@ -110,3 +110,49 @@ Check de_alloc_limit_triggers.
 Check de_total_needs_limit_not_length.
 Check de_total_needs_theight.
 Check hyps_satisfiable_t.
+
+(** ** The allocation cap in container files (proofs/DeClosure.v, proofs/ContainerLimitsProofs.v): the cap the caller configured
+    is the cap of the outer reader and of the reader of EVERY block, after any number of calls, errors included
+    ([cinv r s]: the reader held by state s has rd_max_alloc = rd_max_alloc r and the same slice/BufRead mode) -- it is neither reset
+    nor lowered when a block is entered or left --, and it is enforced in every block: a request for n bytes that are not buffered,
+    with n above the cap, makes that call return an error ([next_tr]: the read_slice requests of one call). Two defective hand-overs
+    (cap reset to the default; cap := min cap block size) are refuted on a concrete two-block file (module Witness) *)
+Require Import Container DeClosure ContainerLimitsProofs.
+Local Open Scope N_scope.
+Theorem C04_container_cap_invariant :
+  forall (Sc : fschema) (cfg : dcfg) (t : dtarget) (r : rstate) (m : list (bytes * bytes)) (sy : bytes) (r' : rstate) (k : nat),
+  cr_open r = Ok (m, sy, r') -> cinv r (cr_state (cr_after Sc cfg sy t k {| cr_state := RNotInBlock r'; cr_pretend_eof := false |})).
+Proof. exact container_cap_invariant. Qed.
+
+Theorem C04_container_cap_enforced_in_every_block :
+  forall (Sc : fschema) (cfg : dcfg) (t : dtarget) (r : rstate) (m : list (bytes * bytes)) (sy : bytes) (r' : rstate)
+  (N0 k : nat) (l : list req) (n : N) (s : rstate),
+  cr_open r = Ok (m, sy, r') ->
+  rd_chunks r <> None ->
+  (k < N0)%nat ->
+  next_tr Sc cfg sy t (cr_after Sc cfg sy t k {| cr_state := RNotInBlock r'; cr_pretend_eof := false |}) l ->
+  In (n, s) l ->
+  blen (buffer s) < n ->
+  rd_max_alloc r < n ->
+  nth_error (cr_run Sc cfg sy t N0 {| cr_state := RNotInBlock r'; cr_pretend_eof := false |}) k = Some (IErr EData).
+Proof. exact enforced_in_every_block_run. Qed.
+
+Theorem C04_de_keeps_cap :
+  forall (Sc : fschema) (cfg : dcfg) (fuel : nat) (n : fnode) (depth : nat) (favor force : bool) (t : dtarget) (rs : rstate),
+  rd_max_alloc (snd (de Sc cfg fuel n depth favor force t rs)) = rd_max_alloc rs /\
+  (rd_chunks rs = None <-> rd_chunks (snd (de Sc cfg fuel n depth favor force t rs)) = None).
+Proof. exact de_keeps_cap. Qed.
+
+Theorem C04_bytes_over_cap :
+  forall (Sc : fschema) (cfg : dcfg) (f depth : nat) (favor : bool) (rs : rstate) (n : N) (rs1 : rstate),
+  read_usize rs = (Ok n, rs1) ->
+  rd_chunks rs <> None ->
+  blen (buffer rs1) < n -> rd_max_alloc rs < n -> de Sc cfg (S f) FBytes depth favor false TAny rs = (Err EData, rs1).
+Proof. exact de_bytes_over_cap. Qed.
+
+Check Witness.reset_accepts_over_cap.
+Check Witness.ratchet_refuses_legal.
+Check Witness.model_enforces_in_block_2.
+Check Witness.model_accepts_legal_in_block_2.
+Check Witness.buffered_over_cap_is_not_refused.
+Check reference_traces_exist.
